@@ -635,6 +635,20 @@ def c09(rec):
                 out.append(dict(signature=f"C09:max-workers:{o['max_workers']}vs{want_mw}|cause={c}",
                                 msg=f"returned executor has _max_workers={o['max_workers']}, "
                                     f"{want_mw} requested"))
+    # "correctly configured": the executor handed out can run the requested number of tasks at
+    # the same time (asked with that many long tasks once the call has returned)
+    if not v and not kill:
+        for o in rec.ops:
+            if o["op"][0] == "expect_inside" and o.get("value") != o["op"][1] \
+                    and not any(e["broken"] for e in rec.execs) \
+                    and not (o.get("queue_size") is not None and o["queue_size"] < o["op"][1]
+                             and o.get("cpus") is not None
+                             and o["queue_size"] == 2 * o["cpus"] + 1):      # F23's circumstances
+                out.append(dict(signature=f"C09:cannot-run-requested-workers:{o.get('value')}of"
+                                          f"{o['op'][1]}:queue={o.get('queue_size')}|cause={c}",
+                                msg=f"the reused executor was asked for {o['op'][1]} workers; with "
+                                    f"that many long tasks pending only {o.get('value')} run at the "
+                                    f"same time (call queue: {o.get('queue_size')} slots)"))
     if not single and not v and not kill:
         out += _c09_racing(rec, m, next_id, pool, post, c)
     if not single and not v:
